@@ -97,10 +97,23 @@ func (x *Exec) callStatic(st *State, i *ssa.Call, callee *ssa.Function, args, bi
 		return
 	}
 	// no contract: havoc results
+	ptrArg := false
 	for _, a := range c.Args {
 		t := tyFromGo(a.Type())
 		if t.K == TSlice && !t.IsStr || t.K == TPtr {
-			vfail("call to %s without contract passes pointer-like argument", callee)
+			ptrArg = true
+		}
+	}
+	if ptrArg {
+		if callee.Signature.Recv() == nil && callee.Pkg != nil && readOnlyStdPkgs[callee.Pkg.Pkg.Path()] {
+			// package-level functions of these standard packages only read their arguments
+			x.W.Assumes["call to "+externKey(callee)+" has no contract: a read-only standard-library function (reads its arguments, writes nothing); results unconstrained"] = true
+		} else {
+			// an unknown callee that receives pointers may write anything reachable from them (and,
+			// for a method on a package-level object, keep what it is given): nothing of that can be
+			// shown to stay within the caller's frame. Reported as a failing obligation of the caller
+			// (such a call only appears in changed code); execution continues with havocked results.
+			x.oblige(st, "extern-frame", instrOrd(i)+"/"+callee.Name(), "call to "+callee.String()+" (no contract) passes pointers: its effects cannot be shown to stay within the frame of the caller", i.Pos(), False)
 		}
 	}
 	x.W.Assumes["call to "+externKey(callee)+" has no contract: results unconstrained"] = true
@@ -116,6 +129,10 @@ func (x *Exec) callStatic(st *State, i *ssa.Call, callee *ssa.Function, args, bi
 	setResult(st, rs)
 	k(st)
 }
+
+// readOnlyStdPkgs: standard packages whose package-level functions do not write through their
+// arguments and keep no reference to them (methods - bytes.Buffer, strings.Builder ... - are not covered)
+var readOnlyStdPkgs = map[string]bool{"bytes": true, "strings": true, "unicode/utf8": true, "unicode": true, "math/bits": true, "math": true, "strconv": true}
 
 // applyContract: assert requires, havoc assigned state, assume ensures.
 func (x *Exec) applyContract(st *State, i *ssa.Call, fi *FuncInfo, fs *FuncSpec, args []Value, binds []Value) []Value {
